@@ -48,7 +48,7 @@ ID = "C19"
 LEVEL = "other"
 THEOREMS = ["resample_index_ok", "resample_unrepaired_fails", "subtree_choice_nonempty_or_fallback", "normalise_ok",
             "weights_positive", "schedule_total", "schedule_untimed", "run_guards_ok",
-            "support_complete_wf", "run_states_ok", "run_start_ok", "run_entries_ok"]
+            "support_complete_wf", "run_states_ok", "run_start_ok", "run_start_store_ok", "run_entries_ok"]
 BUDGET = {"quick": 100, "thorough": 900}
 MAX_JOBS = 14
 EXPLANATION = (
